@@ -4,8 +4,8 @@ C06 — only directly verified contacts enter the table; good ones are never evi
 import DhtVerif.Model.Table
 import DhtVerif.Props.C05
 import DhtVerif.Lemmas.C06
-import DhtVerif.Props.SourceTrees
-import DhtVerif.Props.SourceTrees2
+import DhtVerif.Props.STNodes
+import DhtVerif.Props.ST2Questionable
 namespace Dht
 
 /-- The events through which (id, addr) may enter: a query or a matched
